@@ -1,8 +1,8 @@
 #!/bin/bash
-# runs every seeded change against the check of the property it breaks (4 at a time) and writes seeded/RESULTS.txt
+# runs every seeded change against the check of the property it breaks (6 at a time) and writes seeded/RESULTS.txt
 cd "$(dirname "$0")/.."
 out=seeded/RESULTS.txt; : > $out.tmp
-ls -d seeded/C*/ | xargs -P 4 -I{} sh -c 'tools/seeded.sh {} > /tmp/seedmatrix_$(basename {}).log 2>&1'
+ls -d seeded/C*/ | xargs -P 6 -I{} sh -c 'tools/seeded.sh {} > /tmp/seedmatrix_$(basename {}).log 2>&1'
 for d in seeded/C*/; do n=$(basename $d); cat /tmp/seedmatrix_$n.log | cut -c1-330 >> $out.tmp; rm -f /tmp/seedmatrix_$n.log; done
 mv $out.tmp $out
 grep -c "check C.. exit=1" $out
